@@ -88,7 +88,10 @@ def make_arg(rng, kind, valid, quality='exact'):
 def same_value(a, b):
     if isinstance(a, tuple) and isinstance(b, tuple):
         return len(a) == len(b) and all(same_value(x, y) for x, y in zip(a, b))
-    return np.array_equal(np.asarray(a), np.asarray(b))
+    try:
+        return np.array_equal(np.asarray(a, dtype=float), np.asarray(b, dtype=float), equal_nan=True)   # NaN (arccos of 1+1e-8 for a near-rotation) is the same value on both sides
+    except (TypeError, ValueError):
+        return np.array_equal(np.asarray(a), np.asarray(b))
 
 
 def search(ctx):
